@@ -18,6 +18,16 @@ theorem lookup_mem {α : Type} : ∀ (l : List (String × α)) (k : String) (v :
       · simp only [e, if_false] at h
         exact List.mem_cons_of_mem _ (lookup_mem r k v h)
 
+theorem lookupTy_mem {α : Type} : ∀ (l : List (Ty × α)) (k : Ty) (v : α), lookupTy l k = some v → (k, v) ∈ l
+  | [], k, v, h => by simp [lookupTy] at h
+  | (a, b) :: r, k, v, h => by
+      simp only [lookupTy] at h
+      by_cases e : a = k
+      · simp only [e, if_true, Option.some.injEq] at h
+        subst h; subst e; exact List.mem_cons_self
+      · simp only [e, if_false] at h
+        exact List.mem_cons_of_mem _ (lookupTy_mem r k v h)
+
 /-! ### values of immutable types hold no address -/
 
 mutual
@@ -31,7 +41,7 @@ theorem imm_no_addrs (env : Env) : ∀ (n : GoNode) (fuel : Nat) (t : Ty),
       cases t <;> cases fuel <;> simp [immTy, hasTy] at hi ht
   | .ptr a n, fuel, t, hi, ht => by
       cases t <;> cases fuel <;> simp [immTy, hasTy] at hi ht
-  | .iface n, fuel, t, hi, ht => by
+  | .iface td n, fuel, t, hi, ht => by
       cases t <;> cases fuel <;> simp [immTy, hasTy] at hi ht
   | .struct s fs, fuel, t, hi, ht => by
       cases t with
@@ -67,11 +77,17 @@ end
 
 theorem tableOK_entry {env : Env} {spec : Spec} {fuel : Nat} (hok : tableOK env spec fuel = true)
     {T : String} {ms : List (String × Mode)} {ts : List (String × Ty)}
-    (h1 : lookup spec T = some ms) (h2 : lookup env T = some ts) : fitsF env spec fuel ms ts = true := by
-  have hm := lookup_mem spec T ms h1
-  simp only [tableOK, List.all_eq_true] at hok
-  have := hok (T, ms) hm
+    (h1 : lookup spec.structs T = some ms) (h2 : lookup env T = some ts) : fitsF env spec fuel ms ts = true := by
+  have hm := lookup_mem spec.structs T ms h1
+  simp only [tableOK, structsOK, Bool.and_eq_true, List.all_eq_true] at hok
+  have := hok.1 (T, ms) hm
   simpa [h2] using this
+
+theorem tableOK_dyn {env : Env} {spec : Spec} {fuel : Nat} (hok : tableOK env spec fuel = true)
+    {t : Ty} {m : Mode} (h : lookupTy spec.dyn t = some m) : fits env spec fuel m t = true := by
+  have hm := lookupTy_mem spec.dyn t m h
+  simp only [tableOK, dynOK, Bool.and_eq_true, List.all_eq_true] at hok
+  exact hok.2 (t, m) hm
 
 theorem safe_nilv (spec : Spec) (m : Mode) : safe spec m .nilv = true := by
   cases m <;> simp [safe, addrs, erase, GoNode.isNil]
@@ -108,6 +124,7 @@ theorem clean_safe (env : Env) (spec : Spec) (fuel : Nat) (hok : tableOK env spe
           cases t with
           | ptr t' => simp [hasTy] at ht
           | _ => simp [fits] at hf
+      | dyn => cases t <;> simp [fits, hasTy] at hf ht
   | .gomap a es, m, t, hf, ht, hc => by
       cases m with
       | byValue =>
@@ -127,6 +144,7 @@ theorem clean_safe (env : Env) (spec : Spec) (fuel : Nat) (hok : tableOK env spe
           cases t with
           | ptr t' => simp [hasTy] at ht
           | _ => simp [fits] at hf
+      | dyn => cases t <;> simp [fits, hasTy] at hf ht
   | .ptr a n, m, t, hf, ht, hc => by
       cases m with
       | byValue =>
@@ -147,7 +165,8 @@ theorem clean_safe (env : Env) (spec : Spec) (fuel : Nat) (hok : tableOK env spe
       | freshSlice m' => cases t <;> simp [fits, hasTy] at hf ht
       | freshMap m' => cases t <;> simp [fits, hasTy] at hf ht
       | recur T => cases t <;> simp [fits, hasTy] at hf ht
-  | .iface n, m, t, hf, ht, hc => by
+      | dyn => cases t <;> simp [fits, hasTy] at hf ht
+  | .iface td n, m, t, hf, ht, hc => by
       cases m with
       | byValue =>
           cases t <;> cases fuel <;> simp [fits, immTy, hasTy] at hf ht
@@ -159,6 +178,17 @@ theorem clean_safe (env : Env) (spec : Spec) (fuel : Nat) (hok : tableOK env spe
       | viaPtrRec T =>
           cases t with
           | ptr t' => simp [hasTy] at ht
+          | _ => simp [fits] at hf
+      | dyn =>
+          cases t with
+          | iface =>
+              simp only [hasTy] at ht; simp only [clean] at hc
+              simp only [safe]
+              cases hl : lookupTy spec.dyn td with
+              | none => simpa [hl] using hc
+              | some m' =>
+                  simp only [hl] at hc ⊢
+                  exact clean_safe env spec fuel hok n m' td (tableOK_dyn hok hl) ht hc
           | _ => simp [fits] at hf
   | .struct s fs, m, t, hf, ht, hc => by
       cases m with
@@ -174,7 +204,7 @@ theorem clean_safe (env : Env) (spec : Spec) (fuel : Nat) (hok : tableOK env spe
               obtain ⟨hTS, hsome⟩ := hf
               subst hTS
               simp only [hasTy, Bool.and_eq_true] at ht
-              cases hl : lookup spec T with
+              cases hl : lookup spec.structs T with
               | none => simp [hl] at hsome
               | some ms =>
                   cases he : lookup env T with
@@ -191,6 +221,7 @@ theorem clean_safe (env : Env) (spec : Spec) (fuel : Nat) (hok : tableOK env spe
           cases t with
           | ptr t' => simp [hasTy] at ht
           | _ => simp [fits] at hf
+      | dyn => cases t <;> simp [fits, hasTy] at hf ht
 theorem cleanL_safe (env : Env) (spec : Spec) (fuel : Nat) (hok : tableOK env spec fuel = true) :
     ∀ (l : List GoNode) (m : Mode) (t : Ty), fits env spec fuel m t = true → hasTyL env t l = true →
       cleanL spec m l = true → safeL spec m l = true
@@ -224,60 +255,91 @@ theorem cleanF_safe (env : Env) (spec : Spec) (fuel : Nat) (hok : tableOK env sp
              cleanF_safe env spec fuel hok r ms ts hf.2 ht.2 hc.2⟩
 end
 
-/-! ### a table without bad entries makes every well-typed value clean -/
+/-! ### a table without bad entries makes every well-typed value (over the universe) clean -/
 
 theorem bad_free_entry {spec : Spec} (hb : badEntries spec = []) {T : String} {ms : List (String × Mode)}
-    (h : lookup spec T = some ms) : ∀ f ∈ ms, f.2.bad = false := by
+    (h : lookup spec.structs T = some ms) : ∀ f ∈ ms, f.2.bad = false := by
   intro f hf
-  have hm := lookup_mem spec T ms h
+  have hm := lookup_mem spec.structs T ms h
   cases hbad : f.2.bad with
   | false => rfl
   | true =>
       have : (T, f.1, f.2) ∈ badEntries spec := by
-        simp only [badEntries, List.mem_flatMap, List.mem_map, List.mem_filter]
-        exact ⟨(T, ms), hm, f, ⟨hf, hbad⟩, rfl⟩
+        simp only [badEntries, List.mem_append, List.mem_flatMap, List.mem_map, List.mem_filter]
+        exact Or.inl ⟨(T, ms), hm, f, ⟨hf, hbad⟩, rfl⟩
+      rw [hb] at this; cases this
+
+theorem bad_free_dyn {spec : Spec} (hb : badEntries spec = []) {t : Ty} {m : Mode}
+    (h : lookupTy spec.dyn t = some m) : m.bad = false := by
+  have hm := lookupTy_mem spec.dyn t m h
+  cases hbad : m.bad with
+  | false => rfl
+  | true =>
+      have : ("any", t.show, m) ∈ badEntries spec := by
+        simp only [badEntries, List.mem_append, List.mem_map, List.mem_filter]
+        exact Or.inr ⟨(t, m), ⟨hm, hbad⟩, rfl⟩
       rw [hb] at this; cases this
 
 mutual
-theorem good_clean (env : Env) (spec : Spec) (fuel : Nat) (hok : tableOK env spec fuel = true)
-    (hb : badEntries spec = []) :
+theorem good_clean (env : Env) (spec : Spec) (fuel : Nat) (U : List Ty)
+    (hok : tableOK env spec fuel = true) (hb : badEntries spec = [])
+    (hcov : dynCovers env spec fuel U = true) :
     ∀ (n : GoNode) (m : Mode) (t : Ty), m.bad = false → fits env spec fuel m t = true →
-      hasTy env t n = true → clean spec m n = true
-  | .imm v, m, t, hm, hf, ht => by cases m <;> simp [clean, Mode.bad] at hm ⊢
-  | .nilv, m, t, hm, hf, ht => by cases m <;> simp [clean, Mode.bad] at hm ⊢
-  | .iface n, m, t, hm, hf, ht => by cases m <;> simp [clean, Mode.bad] at hm ⊢
-  | .slice a es, m, t, hm, hf, ht => by
+      hasTy env t n = true → dynIn U n = true → clean spec m n = true
+  | .imm v, m, t, hm, hf, ht, hd => by cases m <;> simp [clean, Mode.bad] at hm ⊢
+  | .nilv, m, t, hm, hf, ht, hd => by cases m <;> simp [clean, Mode.bad] at hm ⊢
+  | .iface td n, m, t, hm, hf, ht, hd => by
+      cases m with
+      | dyn =>
+          cases t with
+          | iface =>
+              simp only [hasTy] at ht
+              simp only [dynIn, Bool.and_eq_true] at hd
+              simp only [clean]
+              cases hl : lookupTy spec.dyn td with
+              | some m' =>
+                  simp only []
+                  exact good_clean env spec fuel U hok hb hcov n m' td (bad_free_dyn hb hl) (tableOK_dyn hok hl) ht hd.2
+              | none =>
+                  simp only []
+                  have hmem : td ∈ U := by simpa using hd.1
+                  simp only [dynCovers, List.all_eq_true] at hcov
+                  have hi : immTy env fuel td = true := by simpa [hl] using hcov td hmem
+                  simp [imm_no_addrs env n fuel td hi ht]
+          | _ => simp [fits] at hf
+      | _ => simp [clean, Mode.bad] at hm ⊢
+  | .slice a es, m, t, hm, hf, ht, hd => by
       cases m with
       | freshSlice m' =>
           cases t with
           | slice t' =>
-              simp only [Mode.bad] at hm; simp only [fits] at hf; simp only [hasTy] at ht
-              simp only [clean]; exact good_cleanL env spec fuel hok hb es m' t' hm hf ht
+              simp only [Mode.bad] at hm; simp only [fits] at hf; simp only [hasTy] at ht; simp only [dynIn] at hd
+              simp only [clean]; exact good_cleanL env spec fuel U hok hb hcov es m' t' hm hf ht hd
           | _ => simp [fits] at hf
       | _ => simp [clean, Mode.bad] at hm ⊢
-  | .gomap a es, m, t, hm, hf, ht => by
+  | .gomap a es, m, t, hm, hf, ht, hd => by
       cases m with
       | freshMap m' =>
           cases t with
           | map t' =>
-              simp only [Mode.bad] at hm; simp only [fits] at hf; simp only [hasTy] at ht
-              simp only [clean]; exact good_cleanE env spec fuel hok hb es m' t' hm hf ht
+              simp only [Mode.bad] at hm; simp only [fits] at hf; simp only [hasTy] at ht; simp only [dynIn] at hd
+              simp only [clean]; exact good_cleanE env spec fuel U hok hb hcov es m' t' hm hf ht hd
           | _ => simp [fits] at hf
       | _ => simp [clean, Mode.bad] at hm ⊢
-  | .ptr a n, m, t, hm, hf, ht => by
+  | .ptr a n, m, t, hm, hf, ht, hd => by
       cases m with
       | viaPtrRec T =>
           cases t with
           | ptr t' =>
               cases t' with
               | named S =>
-                  simp only [hasTy] at ht
+                  simp only [hasTy] at ht; simp only [dynIn] at hd
                   simp only [clean]
-                  exact good_clean env spec fuel hok hb n (.recur T) (.named S) rfl (by simpa [fits] using hf) ht
+                  exact good_clean env spec fuel U hok hb hcov n (.recur T) (.named S) rfl (by simpa [fits] using hf) ht hd
               | _ => simp [fits] at hf
           | _ => simp [fits] at hf
       | _ => simp [clean, Mode.bad] at hm ⊢
-  | .struct s fs, m, t, hm, hf, ht => by
+  | .struct s fs, m, t, hm, hf, ht, hd => by
       cases m with
       | recur T =>
           cases t with
@@ -286,7 +348,8 @@ theorem good_clean (env : Env) (spec : Spec) (fuel : Nat) (hok : tableOK env spe
               obtain ⟨hTS, hsome⟩ := hf
               subst hTS
               simp only [hasTy, Bool.and_eq_true] at ht
-              cases hl : lookup spec T with
+              simp only [dynIn] at hd
+              cases hl : lookup spec.structs T with
               | none => simp [clean, hl]
               | some ms =>
                   cases he : lookup env T with
@@ -294,44 +357,49 @@ theorem good_clean (env : Env) (spec : Spec) (fuel : Nat) (hok : tableOK env spe
                   | some ts =>
                       simp only [he] at ht
                       simp only [clean, hl]
-                      exact good_cleanF env spec fuel hok hb fs ms ts (bad_free_entry hb hl)
-                        (tableOK_entry hok hl he) ht.2
+                      exact good_cleanF env spec fuel U hok hb hcov fs ms ts (bad_free_entry hb hl)
+                        (tableOK_entry hok hl he) ht.2 hd
           | _ => simp [fits] at hf
       | _ => simp [clean, Mode.bad] at hm ⊢
-theorem good_cleanL (env : Env) (spec : Spec) (fuel : Nat) (hok : tableOK env spec fuel = true)
-    (hb : badEntries spec = []) :
+theorem good_cleanL (env : Env) (spec : Spec) (fuel : Nat) (U : List Ty)
+    (hok : tableOK env spec fuel = true) (hb : badEntries spec = [])
+    (hcov : dynCovers env spec fuel U = true) :
     ∀ (l : List GoNode) (m : Mode) (t : Ty), m.bad = false → fits env spec fuel m t = true →
-      hasTyL env t l = true → cleanL spec m l = true
-  | [], _, _, _, _, _ => rfl
-  | n :: r, m, t, hm, hf, ht => by
-      simp only [hasTyL, Bool.and_eq_true] at ht
+      hasTyL env t l = true → dynInL U l = true → cleanL spec m l = true
+  | [], _, _, _, _, _, _ => rfl
+  | n :: r, m, t, hm, hf, ht, hd => by
+      simp only [hasTyL, dynInL, Bool.and_eq_true] at ht hd
       simp only [cleanL, Bool.and_eq_true]
-      exact ⟨good_clean env spec fuel hok hb n m t hm hf ht.1, good_cleanL env spec fuel hok hb r m t hm hf ht.2⟩
-theorem good_cleanE (env : Env) (spec : Spec) (fuel : Nat) (hok : tableOK env spec fuel = true)
-    (hb : badEntries spec = []) :
+      exact ⟨good_clean env spec fuel U hok hb hcov n m t hm hf ht.1 hd.1,
+             good_cleanL env spec fuel U hok hb hcov r m t hm hf ht.2 hd.2⟩
+theorem good_cleanE (env : Env) (spec : Spec) (fuel : Nat) (U : List Ty)
+    (hok : tableOK env spec fuel = true) (hb : badEntries spec = [])
+    (hcov : dynCovers env spec fuel U = true) :
     ∀ (l : List (String × GoNode)) (m : Mode) (t : Ty), m.bad = false → fits env spec fuel m t = true →
-      hasTyE env t l = true → cleanE spec m l = true
-  | [], _, _, _, _, _ => rfl
-  | (g, n) :: r, m, t, hm, hf, ht => by
-      simp only [hasTyE, Bool.and_eq_true] at ht
+      hasTyE env t l = true → dynInE U l = true → cleanE spec m l = true
+  | [], _, _, _, _, _, _ => rfl
+  | (g, n) :: r, m, t, hm, hf, ht, hd => by
+      simp only [hasTyE, dynInE, Bool.and_eq_true] at ht hd
       simp only [cleanE, Bool.and_eq_true]
-      exact ⟨good_clean env spec fuel hok hb n m t hm hf ht.1, good_cleanE env spec fuel hok hb r m t hm hf ht.2⟩
-theorem good_cleanF (env : Env) (spec : Spec) (fuel : Nat) (hok : tableOK env spec fuel = true)
-    (hb : badEntries spec = []) :
+      exact ⟨good_clean env spec fuel U hok hb hcov n m t hm hf ht.1 hd.1,
+             good_cleanE env spec fuel U hok hb hcov r m t hm hf ht.2 hd.2⟩
+theorem good_cleanF (env : Env) (spec : Spec) (fuel : Nat) (U : List Ty)
+    (hok : tableOK env spec fuel = true) (hb : badEntries spec = [])
+    (hcov : dynCovers env spec fuel U = true) :
     ∀ (l : List (String × GoNode)) (ms : List (String × Mode)) (ts : List (String × Ty)),
       (∀ f ∈ ms, f.2.bad = false) → fitsF env spec fuel ms ts = true → hasTyF env ts l = true →
-      cleanF spec ms l = true
-  | [], ms, _, _, _, _ => by cases ms <;> rfl
-  | (g, n) :: r, [], ts, hm, hf, ht => by
+      dynInE U l = true → cleanF spec ms l = true
+  | [], ms, _, _, _, _, _ => by cases ms <;> rfl
+  | (g, n) :: r, [], ts, hm, hf, ht, hd => by
       cases ts with
       | nil => simp [hasTyF] at ht
       | cons t ts => simp [fitsF] at hf
-  | (g, n) :: r, (h, m) :: ms, [], hm, hf, ht => by simp [fitsF] at hf
-  | (g, n) :: r, (h, m) :: ms, (h', t) :: ts, hm, hf, ht => by
-      simp only [fitsF, hasTyF, Bool.and_eq_true] at hf ht
+  | (g, n) :: r, (h, m) :: ms, [], hm, hf, ht, hd => by simp [fitsF] at hf
+  | (g, n) :: r, (h, m) :: ms, (h', t) :: ts, hm, hf, ht, hd => by
+      simp only [fitsF, hasTyF, dynInE, Bool.and_eq_true] at hf ht hd
       simp only [cleanF, Bool.and_eq_true]
-      exact ⟨good_clean env spec fuel hok hb n m t (hm (h, m) List.mem_cons_self) hf.1.2 ht.1.2,
-             good_cleanF env spec fuel hok hb r ms ts (fun f hfm => hm f (List.mem_cons_of_mem _ hfm)) hf.2 ht.2⟩
+      exact ⟨good_clean env spec fuel U hok hb hcov n m t (hm (h, m) List.mem_cons_self) hf.1.2 ht.1.2 hd.1,
+             good_cleanF env spec fuel U hok hb hcov r ms ts (fun f hfm => hm f (List.mem_cons_of_mem _ hfm)) hf.2 ht.2 hd.2⟩
 end
 
 /-! ### statement-level definitions shared by the property files -/
